@@ -426,4 +426,16 @@ Proof.
   - destruct (step M MAXC s l) as [s1|] eqn:E; [|discriminate]. apply IH. eapply reach_step; eauto.
 Qed.
 
+Lemma run_reach ls s : run M MAXC init ls = Some s -> reachable M MAXC s.
+Proof. apply run_reachable. apply reach_init. Qed.
+
+Lemma run_reachable_nc ls : forall s0 s, forallb (fun l => negb (is_cancel l)) ls = true ->
+  reachable_nc M MAXC s0 -> run M MAXC s0 ls = Some s -> reachable_nc M MAXC s.
+Proof.
+  induction ls as [|l ls IH]; cbn; intros s0 s F R0.
+  - intros [= <-]. assumption.
+  - apply andb_prop in F. destruct F as [F1 F2]. destruct (step M MAXC s0 l) as [s1|] eqn:E; [|discriminate].
+    apply IH; [assumption|]. eapply reachnc_step; eauto. now destruct (is_cancel l).
+Qed.
+
 End Thm.
